@@ -490,6 +490,25 @@ class Gen:
                 elif c == 7: self.delete_some()
                 elif c == 8: self.set_something()
                 else: self.do("Clear %d" % r.below(2))
+        elif p == "recycle":
+            # a deferred-deleted entity and a NEW live entity on the same sub-entities coexist until the next collection:
+            # the stale slot must neither disturb the live one (caches, closure, swaps) nor be resurrected by it
+            self.mode(deferred=1)
+            if r.chance(1, 2): self.create_props(2)
+            self.build(); self.fill_props()
+            for _ in range(nops):
+                c = r.below(20)
+                if c < 6:
+                    self.delete_some("CCFE"); self.readd()
+                    if r.chance(1, 2): self.readd()
+                elif c < 8: self.do("GC")
+                elif c < 9: self.do("EnDef 0"); self.do("EnDef 1")
+                elif c < 11: self.swap_some()
+                elif c < 13: self.delete_some("VEFC")
+                elif c < 15: self.toggle()
+                elif c < 16: self.build()
+                elif c < 17: self.status_gc() if self.sgc else self.do("GC")
+                else: self.readd()
         elif p == "gc":
             # pending deletions, then collect_garbage / leaving deferred mode / StatusAttrib::garbage_collection (C04)
             self.mode(deferred=1)
